@@ -31,8 +31,9 @@
  *
  * Count observation of a directory (filesystems with ~65000 directories, where "st" is too large): stored link count, index flag,
  * number of names whose inode is a directory whose ".." names <dir> back (sub), number of other names, names that are inconsistent
- * (dangling, wrong file type, lookup failure: bad), in-use inodes that are directories whose ".." names <dir> (ddsub), free inodes and
- * blocks from the bitmaps, in-use directories in all.
+ * (dangling, wrong file type, lookup failure: bad), in-use inodes that are directories whose ".." names <dir> (ddsub; -1 = not counted:
+ * the observation after nlmkdir / nlrmdir and `dirdrv <image> nl <dir> light` leave this second sweep to the next full observation),
+ * free inodes and blocks from the bitmaps, in-use directories in all.
  * A line starting with '-' is executed without printing an observation (runs of operations).
  *
  * Releasing an inode (rm at zero, rmdir, kill) is done the way misc/fuse2fs.c remove_inode() does it with public calls:
@@ -295,12 +296,13 @@ static int nl_proc(ext2_ino_t dir, int entry, struct ext2_dir_entry *de, int off
 	return 0;
 }
 
-static void dump_count(ext2_ino_t dir)
+static void dump_count(ext2_ino_t dir, int full)
 {
 	struct nl_ctx c;
 	struct ext2_inode inode, ci;
 	ext2_ino_t ino, n = fs->super->s_inodes_count, first = EXT2_FIRST_INODE(fs->super), pp;
-	unsigned long fi = 0, fb = 0, ddsub = 0, ndirs = 0;
+	unsigned long fi = 0, fb = 0, ndirs = 0;
+	long ddsub = full ? 0 : -1;
 	blk64_t b;
 	errcode_t r;
 
@@ -313,11 +315,11 @@ static void dump_count(ext2_ino_t dir)
 		if (ino != EXT2_ROOT_INO && ino < first) continue;
 		if (ext2fs_read_inode(fs, ino, &ci) || !LINUX_S_ISDIR(ci.i_mode)) continue;
 		ndirs++;
-		if (ino != dir && !ext2fs_lookup(fs, ino, "..", 2, NULL, &pp) && pp == dir) ddsub++;
+		if (full && ino != dir && !ext2fs_lookup(fs, ino, "..", 2, NULL, &pp) && pp == dir) ddsub++;
 	}
 	for (b = fs->super->s_first_data_block; b < ext2fs_blocks_count(fs->super); b++)
 		if (!ext2fs_test_block_bitmap2(fs->block_map, b)) fb++;
-	printf("\"nl\":{\"dir\":%u,\"ty\":%d,\"links\":%u,\"idx\":%d,\"lsr\":\"%s\",\"dot\":%u,\"dd\":%u,\"sub\":%lu,\"other\":%lu,\"bad\":%lu,\"ddsub\":%lu,"
+	printf("\"nl\":{\"dir\":%u,\"ty\":%d,\"links\":%u,\"idx\":%d,\"lsr\":\"%s\",\"dot\":%u,\"dd\":%u,\"sub\":%lu,\"other\":%lu,\"bad\":%lu,\"ddsub\":%ld,"
 	       "\"ndirs\":%lu,\"fi\":%lu,\"fb\":%lu,\"dirnlink\":%d}", dir, ft_of_mode(inode.i_mode), inode.i_links_count, !!(inode.i_flags & EXT2_INDEX_FL),
 	       rname(r), c.dot, c.dotdot, c.sub, c.other, c.bad, ddsub, ndirs, fi, fb, ext2fs_has_feature_dir_nlink(fs->super) ? 1 : 0);
 }
@@ -600,7 +602,7 @@ int main(int argc, char **argv)
 	if (!strcmp(argv[2], "nl") && argc > 3) {
 		r = open_fs(0);
 		if (r) { fprintf(stderr, "open: %s\n", error_message(r)); return 3; }
-		printf("{"); dump_count(atoi(argv[3])); printf("}\n");
+		printf("{"); dump_count(atoi(argv[3]), argc < 5 || strcmp(argv[4], "light")); printf("}\n");
 		ext2fs_close_free(&fs);
 		return 0;
 	}
@@ -617,7 +619,7 @@ int main(int argc, char **argv)
 	else { printf("{\"op\":\"open\",\"r\":\"ok\",\"rc\":0,"); dump_state(); printf("}\n"); }
 	fflush(stdout);
 	while (fgets(line, sizeof(line), stdin)) {
-		int n, rc = 0, quiet = 0, count = 0;
+		int n, rc = 0, quiet = 0, count = 0, full = 1;
 		const char *res;
 		char *lp = line;
 		a2[0] = a3[0] = 0; a1 = 0;
@@ -636,8 +638,8 @@ int main(int argc, char **argv)
 		else if (!strcmp(op, "sync")) r = ext2fs_flush(fs);
 		else if (!strcmp(op, "bulkdir")) r = op_bulkdir(a1, a2, atoi(a3));
 		else if (!strcmp(op, "nl")) { r = 0; nldir = a1; count = 1; }
-		else if (!strcmp(op, "nlmkdir")) { r = op_mkdir(a1, a2); nldir = a1; count = 1; }
-		else if (!strcmp(op, "nlrmdir")) { r = op_rmdir(a1, a2); nldir = a1; count = 1; }
+		else if (!strcmp(op, "nlmkdir")) { r = op_mkdir(a1, a2); nldir = a1; count = 1; full = 0; }
+		else if (!strcmp(op, "nlrmdir")) { r = op_rmdir(a1, a2); nldir = a1; count = 1; full = 0; }
 		else if (!strcmp(op, "mkdir")) r = op_mkdir(a1, a2);
 		else if (!strcmp(op, "create")) r = op_create(a1, a2, atoi(a3));
 		else if (!strcmp(op, "symlink")) r = op_symlink(a1, a2, atoi(a3));
@@ -656,7 +658,7 @@ int main(int argc, char **argv)
 		if (r == EXT2_ET_DIR_EXISTS + 100000) res = "notempty";
 		if (quiet) continue;
 		printf("{\"op\":\"%s\",\"r\":\"%s\",\"rc\":%d,", op, res, rc);
-		if (count) dump_count(nldir); else
+		if (count) dump_count(nldir, full); else
 		dump_state();
 		printf("}\n");
 		fflush(stdout);
